@@ -2,7 +2,7 @@
 # tools_verify_seed.sh <ID> [checks...]: confirm a seeded change myself (suite passes with it, demo fails with / passes without),
 # then run the given checks (default: the property's own quick check) against /repo with the patch applied, and undo it.
 ID=$1; shift
-PROP=${ID%b}            # second-round seeds are named <ID>b
+PROP=${ID%[bcd]}            # later-round seeds are named <ID>b, <ID>c, ...
 CHECKS=${@:-$PROP}
 WT=/tmp/wt/$ID; SD=/tmp/seed/$ID
 set -u
@@ -19,7 +19,7 @@ if [ -n "${SEED_IN_WORKTREE:-}" ]; then
   # run the checks against the worktree itself (patch applied there), leaving /repo untouched (it may be in use by a long run)
   for c in $CHECKS; do
     echo "== VERIF_REPO=$WT bin/check $c quick"
-    VERIF_REPO=$WT timeout 3000 bin/check $c quick > /tmp/seed/$ID/check_$c.log 2>&1; echo "exit=$?"; grep -E "^VIOLATION|^SUMMARY|^HARNESS|^INCONCLUSIVE" /tmp/seed/$ID/check_$c.log | head -6
+    VERIF_EVIDENCE_DIR=/tmp/seed/$ID/evidence VERIF_REPLAY_DIR=/tmp/seed/$ID/replay VERIF_REPO=$WT timeout 3000 bin/check $c quick > /tmp/seed/$ID/check_$c.log 2>&1; echo "exit=$?"; grep -E "^VIOLATION|^SUMMARY|^HARNESS|^INCONCLUSIVE" /tmp/seed/$ID/check_$c.log | head -6
   done
   exit 0
 fi
